@@ -325,4 +325,25 @@ def readHandshake (strictTotal : Bool) (maxHs : Nat) : (fuel : Nat) → Conn →
           | (st', .deliver d) => ({ c with pending := st' }, .msg d)
           | (st', .fatal f) => ({ c with pending := st', err := some f }, .fatal f)
 
+/-! ### stale-buffer cleanup (`cleanupStaleFragments`) and the clock
+
+`addFragment` stamps the buffer (`receivedAt`), `cleanupStaleFragments(timeout)` — called on every fragment
+before the buffer lookup — reads "now" and drops the buffers whose age `now − receivedAt` exceeds the
+timeout. Times are nanosecond counts (`Int`). What matters for reassembly is WHICH clock each of the two
+sites reads: `stampClk` / `nowClk` map real time to the reading of the clock used at that site. -/
+
+/-- pending reassembly buffers with their stamps: (message_seq, receivedAt) -/
+abbrev Stamped := List (Nat × Int)
+
+/-- `now.Sub(fb.receivedAt) > timeout` -/
+def staleAt (now stamp timeout : Int) : Bool := decide (now - stamp > timeout)
+
+/-- cleanupStaleFragments: the buffers that survive -/
+def cleanupStale (now timeout : Int) (st : Stamped) : Stamped := st.filter fun e => !staleAt now e.2 timeout
+
+/-- the buffers that survive a cleanup at real time `t` when the stamps were taken from `stampClk` (at the
+real times recorded in `st`) and "now" is read from `nowClk` -/
+def cleanupAt (stampClk nowClk : Int → Int) (t timeout : Int) (st : Stamped) : Stamped :=
+  st.filter fun e => !staleAt (nowClk t) (stampClk e.2) timeout
+
 end Gotlcp.Model.Fragment
